@@ -16,6 +16,8 @@ RULES = {
             "(self.counter) and self.seed — all three required — and never on the sequence index",
     "PROV": "the sequence index flows only into OrdMinHashStore.indices; race values stored in OrdMinHashStore.values depend on "
             "the offered value only; values and indices move together in the insertion shifts",
+    "COUNT-STORE": "the occurrence number of each element is written back to the counter map on every path of the per-element loop, "
+                   "under one key (the element hash)",
     "MUSTPASS": "in create_signature the sort of self.indices[start..end] dominates every read of self.indices for that position; "
                 "the combining hasher is created per position from self.wyhash_seed and fed hash_one(&data[idx]) of exactly the l "
                 "indices of that position, in index order; one push per position",
@@ -104,6 +106,68 @@ def seed_rule(ctx, facts):
         else:
             ctx.ok("PROV", fid, "data index argument is the enumerate index", hirq.loc(c))
     return n
+
+
+def _must_mutate(n, pred):
+    """every path through n executes a node satisfying pred (loops and closures may run zero times)"""
+    k = n["k"]
+    if pred(n):
+        return True
+    if k == "Block":
+        return any(_must_mutate(x, pred) for x in n["stmts"]) or ("expr" in n and _must_mutate(n["expr"], pred))
+    if k == "Let":
+        return "init" in n and _must_mutate(n["init"], pred)
+    if k == "If":
+        if _must_mutate(n["c"], pred):
+            return True
+        return "e" in n and _must_mutate(n["t"], pred) and _must_mutate(n["e"], pred)
+    if k == "Match":
+        if _must_mutate(n["e"], pred):
+            return True
+        return bool(n["arms"]) and all(_must_mutate(a["body"], pred) for a in n["arms"])
+    if k in ("Loop", "Closure"):
+        return False
+    return any(_must_mutate(c, pred) for c in hirq.children(n))
+
+
+def occurrence_rule(ctx, facts):
+    """COUNT-STORE: the occurrence number of an element is written back to self.counter on every path, under the same key
+    that the seed uses: otherwise all occurrences of an element share one race"""
+    fid = POM + "hash_set"
+    fn = facts.fn(fid)
+    t = tree_of(fn)
+    sl = slicer_of(fn)
+    fls = [f for f in for_loops(fn) if not t.enclosing_loops(f["loop"])]
+    if len(fls) != 1:
+        ctx.violation("COUNT-STORE", fid, "per-element loop", hirq.loc(fn), "expected one per-element loop")
+        return
+    body = fls[0]["body"]
+
+    def pred(n):
+        if n["k"] == "MethodCall" and n["name"] == "insert" and nf.nf(n["recv"]) == "self.counter" and len(n["args"]) == 2:
+            return True
+        if n["k"] in ("AssignOp", "Assign"):
+            l = n["l"]
+            if l["k"] == "Unary" and l["op"] == "*":
+                roots = {slicer.show_root(r) for r in sl.roots(l["e"])}
+                return "self.counter" in roots and n["k"] == "AssignOp" and n["op"] == "+=" and nf.nf(n["r"]) == "1" or \
+                    ("self.counter" in roots and n["k"] == "Assign")
+            kind, key, proj, idx = slicer.base_place(l)
+            if kind == "self" and key == "counter":
+                return True
+        return False
+
+    keys = set()
+    for n in hirq.walk(body):
+        if n["k"] == "MethodCall" and nf.nf(n["recv"]) == "self.counter" and n["name"] in ("get_mut", "entry", "insert", "get") and n["args"]:
+            keys.add(nf.nf(n["args"][0], True))
+    if _must_mutate(body, pred) and len(keys) == 1:
+        ctx.ok("COUNT-STORE", fid, "self.counter[%s] is updated on every path of the per-element loop" % list(keys)[0], hirq.loc(body))
+    elif len(keys) != 1:
+        ctx.violation("COUNT-STORE", fid, "counter keys", hirq.loc(body), "the occurrence counter is accessed under %d different keys %s" % (len(keys), sorted(keys)))
+    else:
+        ctx.violation("COUNT-STORE", fid, "occurrence number not stored", hirq.loc(body),
+                      "on some path through the per-element loop the occurrence counter of the element is not written back (no `*count += 1` on the map entry and no insert): later occurrences of the element get the same number and run the same race")
 
 
 def store_rules(ctx, facts):
@@ -261,6 +325,7 @@ def run(ctx, facts):
     ctx.floor("C11 race loop exits", e, 3)
     s = seed_rule(ctx, facts)
     ctx.floor("C11 seeding sites", s, 1)
+    occurrence_rule(ctx, facts)
     st = store_rules(ctx, facts)
     ctx.floor("C11 store writes", st, 4)
     sg = signature_rules(ctx, facts)
